@@ -11,7 +11,7 @@ from fractions import Fraction
 import math
 
 PID = 'C18'
-MODES = ['C']
+MODES = ['C', 'PY0']
 COMPARE_ARITY = 4
 SB, TB = 24, 30          # scales 2^SB (data), 2^TB (Cholesky factor)
 
@@ -119,6 +119,28 @@ def gen_cases(rng, tier):
         dd = [[i, j, rng.choice([1, -1])] for i in range(norb) for j in range(i) if rng.random() < 0.3]
         cases.append({'kind': 'fqe', 'norb': norb, 'na': na, 'nb': nb, 'h1': h1, 'U': 2, 'dd': dd, 'nroots': 1,
                       'seed': rng.randrange(10 ** 6)})
+    # spin-dependent (SSO) Hamiltonians - different one-body matrices and different same-spin interactions for alpha and beta -
+    # on both code paths, on sectors that take the low-filling kernels of the reference path (n_sigma < 0.3 norb: 7 orbitals,
+    # up to two electrons per spin) and on a half-filled one; judged by the exact sector matrix from the model
+    sso_shapes = [(7, 1, 2), (7, 2, 1), (4, 2, 2)] if tier == 'quick' else [(7, 1, 2), (7, 2, 1), (7, 2, 2), (7, 0, 2), (4, 2, 2), (5, 2, 3), (8, 2, 1)]
+    for norb, na, nb in sso_shapes:
+        def hmat():
+            h = [[0] * norb for _ in range(norb)]
+            for i in range(norb):
+                h[i][i] = rng.randint(-1, 1) + 3 * i
+                for j in range(i):
+                    h[i][j] = h[j][i] = rng.choice([0, 1, -1])
+            return h
+        nso = 2 * norb
+        # v[P][Q] n_P n_Q between different spin orbitals P < Q (spin orbital p + norb*sigma): the three spin blocks differ
+        vv = []
+        for P in range(nso):
+            for Q in range(P):
+                same = (P >= norb) == (Q >= norb)
+                if rng.random() < (0.5 if same else 0.3):
+                    vv.append([P, Q, rng.choice([1, -1, 2]) if (P >= norb) else rng.choice([1, -1])])
+        cases.append({'kind': 'fqe_sso', 'norb': norb, 'na': na, 'nb': nb, 'h1a': hmat(), 'h1b': hmat(), 'vv': vv, 'nroots': 1,
+                      'seed': rng.randrange(10 ** 6), 'modes': ['C', 'PY0']})
     # a field scan: Hamiltonians H(s) = (h1 + s V, h2) built one after the other from the SAME two-body array object, each
     # solved in turn in one process (what a user scanning a one-body field does); every solve is certified separately
     # against the matrix of a freshly built H(s)
@@ -138,6 +160,8 @@ def gen_cases(rng, tier):
         dd = [[i, j, rng.choice([1, -1])] for i in range(norb) for j in range(i) if rng.random() < 0.4]
         cases.append({'kind': 'fqe_scan', 'norb': norb, 'na': na, 'nb': nb, 'h1': h1, 'V': V, 'U': rng.choice([2, 3]), 'dd': dd,
                       'svals': [0, 1, 3], 'nroots': 1, 'seed': rng.randrange(10 ** 6)})
+    for c in cases:
+        c.setdefault('modes', ['C'])
     return cases
 
 
@@ -191,6 +215,54 @@ def run_impl(case, mode):
         wf = fqe.Wavefunction([[nele, sz, norb]])
         sec = wf.sector((nele, sz))
         la, lb = sec.coeff.shape
+        dim = la * lb
+        Hm = numpy.zeros((dim, dim), dtype=complex)
+        for k in range(dim):
+            e = numpy.zeros((la, lb), dtype=complex)
+            e.flat[k] = 1.0
+            wf.set_wfn(strategy='from_data', raw_data={(nele, sz): e})
+            Hm[:, k] = wf.apply(ham).sector((nele, sz)).coeff.reshape(-1)
+        return {'w': [float(numpy.real(x)) for x in w], 'wi': [float(numpy.imag(x)) for x in w],
+                'v': [[[float(c.real), float(c.imag)] for c in vv.sector((nele, sz)).coeff.reshape(-1)] for vv in vecs],
+                'H': [[[float(c.real), float(c.imag)] for c in row] for row in Hm]}
+    if case['kind'] == 'fqe_sso':
+        import fqe
+        norb = case['norb']
+        nso = 2 * norb
+        numpy.random.seed(case['seed'])
+        h1 = numpy.zeros((nso, nso))
+        h1[:norb, :norb] = numpy.array(case['h1a'], dtype=float)
+        h1[norb:, norb:] = numpy.array(case['h1b'], dtype=float)
+        h2 = numpy.zeros((nso,) * 4)
+        for P, Q, v in case['vv']:
+            for p, q in ((P, Q), (Q, P)):
+                h2[p, q, p, q] += -0.5 * v                 # v n_P n_Q  (a+_P a+_Q a_P a_Q = - n_P n_Q)
+        ham = fqe.get_sso_hamiltonian((h1, h2))
+        nele, sz = case['na'] + case['nb'], case['na'] - case['nb']
+        # davidson_diagonalization is written for restricted Hamiltonians (it reads the orbital count off hamiltonian.dim());
+        # the general entry point davidsonliu_fqe takes the guesses: lowest determinant, the same shifted up by one orbital
+        # (a full channel stays), and a random vector - what davidson_diagonalization would build
+        import copy
+        wf0 = fqe.Wavefunction([[nele, sz, norb]])
+        graph = wf0.sector((nele, sz)).get_fcigraph()
+        guesses = []
+        a0, b0 = (1 << case['na']) - 1, (1 << case['nb']) - 1
+        for a_, b_ in ((a0, b0), (a0 << 1 if case['na'] < norb else a0, b0 << 1 if case['nb'] < norb else b0)):
+            g = numpy.zeros((graph.lena(), graph.lenb()), dtype=numpy.complex128)
+            g[graph.index_alpha(a_), graph.index_beta(b_)] = 1.0
+            gw = copy.deepcopy(wf0)
+            gw.set_wfn(strategy='from_data', raw_data={(nele, sz): g})
+            guesses.append(gw)
+        gr = fqe.Wavefunction([[nele, sz, norb]])
+        gr.set_wfn(strategy='random')
+        gr.normalize()
+        guesses.append(gr)
+        try:
+            w, vecs = davidson.davidsonliu_fqe(ham, case['nroots'], guesses, nele=nele, sz=sz, norb=norb)
+        except davidson.ConvergenceError as e:
+            return {'convergence_error': str(e)[:60]}
+        wf = fqe.Wavefunction([[nele, sz, norb]])
+        la, lb = wf.sector((nele, sz)).coeff.shape
         dim = la * lb
         Hm = numpy.zeros((dim, dim), dtype=complex)
         for k in range(dim):
@@ -313,6 +385,32 @@ def _model_matrix(model, norb, na, nb, h1, U, dd):
     return H
 
 
+def _model_matrix_sso(model, case):
+    """exact sector matrix of the spin-dependent Hamiltonian of an 'fqe_sso' case from the extracted model (2 H is integer)"""
+    import numpy
+    import fqeio
+    from props import c01
+    norb, na, nb = case['norb'], case['na'], case['nb']
+    ents = []
+    for blk, off in ((case['h1a'], 0), (case['h1b'], norb)):
+        ents += [[[i + off, j + off], 2 * blk[i][j], 0] for i in range(norb) for j in range(norb) if blk[i][j]]
+    h2 = {}
+    for P, Q, v in case['vv']:
+        for p, q in ((P, Q), (Q, P)):
+            h2[(p, q, p, q)] = h2.get((p, q, p, q), 0) - v
+    ents += [[list(ix), v, 0] for ix, v in sorted(h2.items()) if v]
+    ham = {'cls': 'sso', 'rank': 2, 'entries': ents, 'e0': [0, 0], 'real': True}
+    basis = fqeio.basis_of(norb, [(na + nb, na - nb)])
+    dim = len(basis)
+    H = numpy.zeros((dim, dim))
+    index = {'%d,%d' % ab: k for k, ab in enumerate(basis)}
+    for k, (a, b) in enumerate(basis):
+        e = c01.expected(model, {'norb': norb, 'mode': 'ns', 'n': na + nb, 'sz': na - nb, 'vec': [[a, b, 1, 0]], 'ham': ham})
+        for key, (re, im) in e['out'].items():
+            H[index[key], k] = re / 2.0
+    return H
+
+
 def compare(case, got, exp, mode):
     import numpy
     if 'exc' in got or 'crash' in got:
@@ -335,6 +433,13 @@ def compare(case, got, exp, mode):
         if Hx.shape != Hc.shape or float(numpy.abs(Hx - Hc).max()) > 1e-9:
             bad.append('matrix of H assembled through apply differs from the exact one by %.3g (sector n_alpha=%d, n_beta=%d of %d orbitals)'
                        % (float(numpy.abs(Hx - Hc).max()) if Hx.shape == Hc.shape else -1, case['na'], case['nb'], case['norb']))
+        if Hx.shape == Hc.shape:
+            Hc = Hx.astype(complex)
+    if case.get('kind') == 'fqe_sso':
+        Hx = _model_matrix_sso(model, case)
+        if Hx.shape != Hc.shape or float(numpy.abs(Hx - Hc).max()) > 1e-9:
+            bad.append('matrix of the spin-dependent H assembled through apply differs from the exact one by %.3g (sector n_alpha=%d, n_beta=%d of %d orbitals, path %s)'
+                       % (float(numpy.abs(Hx - Hc).max()) if Hx.shape == Hc.shape else -1, case['na'], case['nb'], case['norb'], mode))
         if Hx.shape == Hc.shape:
             Hc = Hx.astype(complex)
     if numpy.abs(Hc - Hc.conj().T).max() > 1e-12:
